@@ -1,6 +1,7 @@
 import SSV.Proofs.SWFRun
 import SSV.Proofs.UdpSession
 import SSV.Proofs.UdpClient
+import SSV.Proofs.UdpMulti
 /-
 C04 — Authenticated UDP packets are delivered at most once; fresh ones never refused.
 Property theorems only (helper lemmas: SSV/Proofs/SWFBits.lean, SWF.lean, SWFRun.lean, UdpSession.lean, UdpClient.lean;
@@ -169,6 +170,35 @@ theorem gen_udpHeaderChecks :
        "err<-ValidateUnixEpochTimestamp(b[1:1+8], now)", "ret-if-err", "if pcsid != csid", "if payloadStart > len(b)",
        "err<-socks5.AddrPortFromSlice(b[payloadStart:])", "ret-if-err"] := ⟨rfl, rfl⟩
 
+/-- Gen side condition: the program of checks the model's `parseClientHeader` / `parseServerHeader` EXECUTE (they run
+`SSV.Gen.C04.udpClientHeaderOrder` / `udpServerHeaderOrder`, extracted from the parser bodies, first failing check
+decides): a reordering in the source changes the model's error class for multi-fault packets with it. -/
+theorem gen_udpHeaderOrder :
+    SSV.Gen.C04.udpClientHeaderOrder = [.len, .typ, .ts, .pad, .addr] ∧
+    SSV.Gen.C04.udpServerHeaderOrder = [.len, .typ, .ts, .csid, .pad, .addr] := by decide
+
+/-- **header_first_fault_decides.** The model's parsers report the error of the first failing check in source order —
+e.g. a stale packet of the wrong type is a type error, a stale one with a foreign client session id is a
+timestamp error — and accept iff no check fails. -/
+theorem header_first_fault_decides (now csid : Nat) (p : Packet) :
+    (parseServerHeader now csid p = none ↔
+      (p.hdr = true ∧ p.typ = SSV.Gen.C04.HeaderTypeServerPacket ∧ tsValid p.ts now = true ∧ p.csid = csid ∧
+        p.padOk = true ∧ p.addrOk = true)) ∧
+    (p.hdr = true → p.typ ≠ SSV.Gen.C04.HeaderTypeServerPacket → parseServerHeader now csid p = some .badType) ∧
+    (p.hdr = true → p.typ = SSV.Gen.C04.HeaderTypeServerPacket → tsValid p.ts now = false →
+      parseServerHeader now csid p = some .badTimestamp) ∧
+    (p.hdr = true → p.typ = SSV.Gen.C04.HeaderTypeServerPacket → tsValid p.ts now = true → p.csid ≠ csid →
+      parseServerHeader now csid p = some .csidMismatch) := by
+  refine ⟨⟨parseServerHeader_none, ?_⟩, ?_, ?_, ?_⟩
+  · rintro ⟨a, b, c, d, e, f⟩
+    simp [parseServerHeader, SSV.Gen.C04.udpServerHeaderOrder, runChecks, checkFails, a, b, c, d, e, f, headerTypeServerPacket]
+  · intro a b
+    simp [parseServerHeader, SSV.Gen.C04.udpServerHeaderOrder, runChecks, checkFails, a, b, headerTypeServerPacket]
+  · intro a b c
+    simp [parseServerHeader, SSV.Gen.C04.udpServerHeaderOrder, runChecks, checkFails, a, b, c, headerTypeServerPacket]
+  · intro a b c d
+    simp [parseServerHeader, SSV.Gen.C04.udpServerHeaderOrder, runChecks, checkFails, a, b, c, d, headerTypeServerPacket]
+
 /-- **timestamp_check_meaning.** For EVERY 64-bit timestamp word (not only "clock moved by a bit more than 30 s"):
 on a sane clock the check as written accepts the word iff, read as `int64`, it is within `MaxEpochDiff` = 30
 seconds of the clock; hence a delivered packet — server or client unpacker, any state — carries such a
@@ -197,7 +227,7 @@ theorem rejected_is_noop :
   ⟨serverStep_noop, clientStep_noop⟩
 
 example : ∃ (st : ServerState) (now : Nat) (p : Packet), (serverStep st now p).2 ≠ .ok :=
-  ⟨serverInit 4, 0, { long := true, sid := 0, pid := 0, authentic := false, hdr := true, typ := 0, ts := 0, csid := 0, rest := true }, by decide⟩
+  ⟨serverInit 4, 0, { long := true, sid := 0, pid := 0, authentic := false, hdr := true, typ := 0, ts := 0, csid := 0, padOk := true, addrOk := true }, by decide⟩
 
 /-- **junk_never_delivered.** Forged, wrong-type, stale packets — stale = the 64-bit timestamp word, read as `int64`,
 is more than `MaxEpochDiff` s away from the clock, whatever its value — (and, on the client, packets that name
@@ -207,7 +237,7 @@ theorem junk_never_delivered :
     (∀ (st : ClientState) (now : Nat) (p : Packet), ClockOk now → clientJunk st.csid now p = true → (clientStep st now p).2 ≠ .ok) :=
   ⟨fun _ _ _ hc h => serverJunk_rejected hc h, fun _ _ _ hc h => clientJunk_rejected hc h⟩
 
-example : serverJunk 0 { long := true, sid := 0, pid := 0, authentic := true, hdr := true, typ := 0, ts := 31, csid := 0, rest := true } = true := by
+example : serverJunk 0 { long := true, sid := 0, pid := 0, authentic := true, hdr := true, typ := 0, ts := 31, csid := 0, padOk := true, addrOk := true } = true := by
   decide
 
 /-- **junk_interleaving.** Interleaving any amount of such junk into a history changes no verdict on the
@@ -231,7 +261,7 @@ newest delivered; or nothing delivered yet). -/
 theorem server_unpack_refines (n : Nat) (h : SizeOk n) (pre : List Event) (now : Nat) (hck : ClockOk now) (p : Packet) :
     (serverStep (serverAfter (serverInit n) pre) now p).2 = .ok ↔
       (p.long = true ∧ p.authentic = true ∧
-        (p.hdr = true ∧ p.typ = SSV.Gen.C04.HeaderTypeClientPacket ∧ tsNear p.ts now ∧ p.rest = true) ∧
+        (p.hdr = true ∧ p.typ = SSV.Gen.C04.HeaderTypeClientPacket ∧ tsNear p.ts now ∧ p.padOk = true ∧ p.addrOk = true) ∧
         Fresh n (serverDelivered (serverInit n) [] pre) p.pid) := by
   have h0 : SInv (serverInit n) [] := rfl
   obtain ⟨hinv, hsz⟩ := serverRun_inv (st := serverInit n) h.1 h.2 h0 pre
@@ -246,8 +276,8 @@ theorem server_at_most_once (n : Nat) (h : SizeOk n) (evs : List Event) :
   serverDelivered_nodup (st := serverInit n) h.1 h.2 rfl List.nodup_nil evs
 
 example : serverRun (serverInit 4)
-    [(0, { long := true, sid := 0, pid := 7, authentic := true, hdr := true, typ := 0, ts := 0, csid := 0, rest := true }),
-     (0, { long := true, sid := 0, pid := 7, authentic := true, hdr := true, typ := 0, ts := 0, csid := 0, rest := true })]
+    [(0, { long := true, sid := 0, pid := 7, authentic := true, hdr := true, typ := 0, ts := 0, csid := 0, padOk := true, addrOk := true }),
+     (0, { long := true, sid := 0, pid := 7, authentic := true, hdr := true, typ := 0, ts := 0, csid := 0, padOk := true, addrOk := true })]
     = [.ok, .replay] := by decide
 
 /-! ### the client unpacker: current / old / dropped server sessions -/
@@ -267,10 +297,10 @@ theorem client_at_most_once (n csid : Nat) (h : SizeOk n) (evs : List Event)
   (client_run_nodup (st := clientInit n csid) h.1 h.2 (clientInit_inv n csid) evs hm hr).1
 
 example : ∃ evs : List Event, MonoFrom 0 evs ∧ (∀ e ∈ evs, EvOk e) ∧ clientRun (clientInit 4 9) evs = [.ok, .replay, .ok, .tooManySessions] :=
-  ⟨[(1000000000, { long := true, sid := 5, pid := 7, authentic := true, hdr := true, typ := 1, ts := 1, csid := 9, rest := true }),
-    (2000000000, { long := true, sid := 5, pid := 7, authentic := true, hdr := true, typ := 1, ts := 1, csid := 9, rest := true }),
-    (2000000000, { long := true, sid := 5, pid := 8, authentic := true, hdr := true, typ := 1, ts := 1, csid := 9, rest := true }),
-    (3000000000, { long := true, sid := 6, pid := 0, authentic := true, hdr := true, typ := 1, ts := 3, csid := 9, rest := true })],
+  ⟨[(1000000000, { long := true, sid := 5, pid := 7, authentic := true, hdr := true, typ := 1, ts := 1, csid := 9, padOk := true, addrOk := true }),
+    (2000000000, { long := true, sid := 5, pid := 7, authentic := true, hdr := true, typ := 1, ts := 1, csid := 9, padOk := true, addrOk := true }),
+    (2000000000, { long := true, sid := 5, pid := 8, authentic := true, hdr := true, typ := 1, ts := 1, csid := 9, padOk := true, addrOk := true }),
+    (3000000000, { long := true, sid := 6, pid := 0, authentic := true, hdr := true, typ := 1, ts := 3, csid := 9, padOk := true, addrOk := true })],
    by simp [MonoFrom],
    by simp [EvOk, ClockOk, SSV.SaltPool.unixSec, SSV.SaltPool.nsPerSec, tsParams, SSV.Gen.C04.MaxEpochDiff], by decide⟩
 
@@ -296,7 +326,7 @@ theorem client_fresh_never_refused (n csid : Nat) (h : SizeOk n) (pre : List Eve
   · rw [clientStep_res]; exact this.2 a b c
 
 example :
-    let pre : List Event := [(1000000000, { long := true, sid := 5, pid := 7, authentic := true, hdr := true, typ := 1, ts := 1, csid := 9, rest := true })]
+    let pre : List Event := [(1000000000, { long := true, sid := 5, pid := 7, authentic := true, hdr := true, typ := 1, ts := 1, csid := 9, padOk := true, addrOk := true })]
     isCur (clientAfter (clientInit 4 9) pre) 5 = true ∧
     Fresh 4 ((ghostAfter (clientInit 4 9) { cur := [], old := [], dropped := [] } pre).cur.map (·.pid)) 8 := by
   decide
@@ -310,9 +340,73 @@ theorem client_change_rate (st : ClientState) (T : Nat) (evs : List Event) (hm :
   client_changes_pairwise evs hm
 
 example : clientChanges (clientInit 4 9)
-    [(1000000000, { long := true, sid := 5, pid := 7, authentic := true, hdr := true, typ := 1, ts := 1, csid := 9, rest := true }),
-     (61000000000, { long := true, sid := 6, pid := 0, authentic := true, hdr := true, typ := 1, ts := 61, csid := 9, rest := true })]
+    [(1000000000, { long := true, sid := 5, pid := 7, authentic := true, hdr := true, typ := 1, ts := 1, csid := 9, padOk := true, addrOk := true }),
+     (61000000000, { long := true, sid := 6, pid := 0, authentic := true, hdr := true, typ := 1, ts := 61, csid := 9, padOk := true, addrOk := true })]
     = [1000000000, 61000000000] := by decide
+
+/-! ### multi-user server: identity headers, per-user session keys (Model/UdpMulti.lean) -/
+
+open SSV.UdpMulti
+
+/-- **eih_rejected_is_noop.** Behind the session table of a multi-user server a datagram that is not delivered —
+too short, identity header of no known user, sealed under another user's key, replayed, stale, … — changes
+nothing: no session is created, no filter is touched, in this or any other session. -/
+theorem eih_rejected_is_noop (n : Nat) (t : Table) (now : Nat) (e : EPacket)
+    (h : (multiStep n t now e).2 ≠ .res .ok) : (multiStep n t now e).1 = t :=
+  multiStep_noop n t now e h
+
+example : (multiStep 4 emptyTable 0
+    { sep := true, eih := true, eihUser := none, keyUser := some 1,
+      pkt := { long := true, sid := 7, pid := 0, authentic := true, hdr := true, typ := 0, ts := 0, csid := 0, padOk := true, addrOk := true } }).2
+    = .userNotFound := by decide
+
+/-- **eih_unpack_refines** (at-most-once and fresh-never-refused per (user, session)). For every filter size in
+range, after every history `pre` over any number of users and client sessions, a datagram is delivered iff:
+it has a separate header; it is sealed under the key of the session's user (for the first packet of a session:
+of the user its identity header names); it is long enough; its header validates now (client type, timestamp
+word within `MaxEpochDiff` s of the clock, well-formed); and its packet id is fresh w.r.t. the ids delivered
+*in its own client session*. -/
+theorem eih_unpack_refines (n : Nat) (h : SizeOk n) (pre : List MEvent) (now : Nat) (hck : ClockOk now) (e : EPacket) :
+    (multiStep n (multiAfter n emptyTable pre) now e).2 = .res .ok ↔
+      (e.sep = true ∧
+       (∃ u, sessionUser (multiAfter n emptyTable pre) e = some u ∧ e.keyUser = some u) ∧
+       e.pkt.long = true ∧
+       (e.pkt.hdr = true ∧ e.pkt.typ = SSV.Gen.C04.HeaderTypeClientPacket ∧ tsNear e.pkt.ts now ∧ e.pkt.padOk = true ∧ e.pkt.addrOk = true) ∧
+       Fresh n (proj e.pkt.sid (multiDelivered n emptyTable [] pre)) e.pkt.pid) := by
+  obtain ⟨hinv, _⟩ := multiRun_inv h.1 h.2 (emptyTable_inv n) List.nodup_nil pre
+  have := (multiStep_spec h.1 h.2 hinv now e).1
+  rw [parseClientHeader_none_iff, tsValid_iff_near e.pkt.ts hck] at this
+  exact this
+
+/-- **eih_at_most_once.** No (client session id, packet id) is delivered twice, whatever the users, keys and
+identity headers of the datagrams of the history. -/
+theorem eih_at_most_once (n : Nat) (h : SizeOk n) (evs : List MEvent) :
+    (multiDelivered n emptyTable [] evs).Nodup :=
+  (multiRun_inv h.1 h.2 (emptyTable_inv n) List.nodup_nil evs).2
+
+/-- **eih_foreign_user_is_junk.** A datagram sealed under another user's key than the session's user (for a new
+session: than the user its identity header names), or forged, is never delivered and changes nothing. -/
+theorem eih_foreign_user_is_junk (n : Nat) (h : SizeOk n) (pre : List MEvent) (now : Nat) (e : EPacket)
+    (hf : ∀ u, sessionUser (multiAfter n emptyTable pre) e = some u → e.keyUser ≠ some u) :
+    (multiStep n (multiAfter n emptyTable pre) now e).2 ≠ .res .ok ∧
+    (multiStep n (multiAfter n emptyTable pre) now e).1 = multiAfter n emptyTable pre := by
+  obtain ⟨hinv, _⟩ := multiRun_inv h.1 h.2 (emptyTable_inv n) List.nodup_nil pre
+  have hne : (multiStep n (multiAfter n emptyTable pre) now e).2 ≠ .res .ok := by
+    intro hk
+    obtain ⟨_, ⟨u, hu, hku⟩, _⟩ := (multiStep_spec h.1 h.2 hinv now e).1.mp hk
+    exact hf u hu hku
+  exact ⟨hne, multiStep_noop _ _ _ _ hne⟩
+
+example : multiRun 4 emptyTable
+    [(0, { sep := true, eih := true, eihUser := some 1, keyUser := some 1,
+           pkt := { long := true, sid := 7, pid := 0, authentic := true, hdr := true, typ := 0, ts := 0, csid := 0, padOk := true, addrOk := true } }),
+     (0, { sep := true, eih := true, eihUser := some 2, keyUser := some 2,
+           pkt := { long := true, sid := 7, pid := 1, authentic := true, hdr := true, typ := 0, ts := 0, csid := 0, padOk := true, addrOk := true } }),
+     (0, { sep := true, eih := true, eihUser := none, keyUser := some 1,
+           pkt := { long := true, sid := 7, pid := 1, authentic := true, hdr := true, typ := 0, ts := 0, csid := 0, padOk := true, addrOk := true } }),
+     (0, { sep := true, eih := true, eihUser := some 1, keyUser := some 1,
+           pkt := { long := true, sid := 7, pid := 1, authentic := true, hdr := true, typ := 0, ts := 0, csid := 0, padOk := true, addrOk := true } })]
+    = [.res .ok, .res .authFail, .res .ok, .res .replay] := by decide
 
 end SSV.C04
 
@@ -338,3 +432,9 @@ end SSV.C04
 #print axioms SSV.C04.gen_udpHeaderChecks
 #print axioms SSV.C04.timestamp_check_meaning
 #print axioms SSV.C04.gen_swf_sources
+#print axioms SSV.C04.eih_rejected_is_noop
+#print axioms SSV.C04.eih_unpack_refines
+#print axioms SSV.C04.eih_at_most_once
+#print axioms SSV.C04.eih_foreign_user_is_junk
+#print axioms SSV.C04.gen_udpHeaderOrder
+#print axioms SSV.C04.header_first_fault_decides
